@@ -557,7 +557,12 @@ pub extern "C" fn askar_scan_start(
     let order_by_str = order_by.as_opt_str().map(|s| s.to_lowercase());
     let order_by = match order_by_str.as_deref() {
         Some("id") => Some(OrderBy::Id),
-        Some(_) => return ErrorCode::Unsupported,
+        Some(_) => {
+            return set_last_error(Some(err_msg!(
+                Unsupported,
+                "Unsupported value for order_by"
+            )))
+        }
         None => None,
     };
     let descending = descending != 0; // Convert to bool
@@ -754,7 +759,12 @@ pub extern "C" fn askar_session_fetch_all(
     let order_by_str = order_by.as_opt_str().map(|s| s.to_lowercase());
     let order_by = match order_by_str.as_deref() {
         Some("id") => Some(OrderBy::Id),
-        Some(_) => return ErrorCode::Unsupported,
+        Some(_) => {
+            return set_last_error(Some(err_msg!(
+                Unsupported,
+                "Unsupported value for order_by"
+            )))
+        }
         None => None,
     };
     let descending = descending != 0; // Convert to bool
